@@ -21,7 +21,7 @@ pub struct InputEvent {
 impl InputEvent {
     pub fn text_string(&self) -> Option<String> {
         match &self.event {
-            Event::Text(t) => Some(String::from_utf8(t.to_vec()).expect("utf8")),
+            Event::Text(t) => Some(unescaped_text(t)),
             _ => None,
         }
     }
@@ -31,6 +31,18 @@ impl InputEvent {
             Event::CData(c) => Some(String::from_utf8(c.to_vec()).expect("utf8")),
             _ => None,
         }
+    }
+}
+
+/// Character data of an input text event with entity references resolved.
+///
+/// `OutputEvent::Text` always holds *unescaped* text - generated text and text
+/// copied from the input alike - and is escaped exactly once, when written.
+fn unescaped_text(t: &BytesText) -> String {
+    match t.unescape() {
+        Ok(s) => s.into_owned(),
+        // e.g. a reference to an undeclared entity: keep the source text
+        Err(_) => String::from_utf8_lossy(t).into_owned(),
     }
 }
 
@@ -285,7 +297,7 @@ pub fn tagify_events(events: InputList) -> Result<Vec<Tag>> {
                 tags.push(Tag::Comment(text, None));
             }
             Event::Text(t) => {
-                let text = String::from_utf8(t.to_vec())?;
+                let text = unescaped_text(t);
                 if let Some(t) = tags.last_mut() {
                     t.set_text(text)
                 } else {
@@ -342,9 +354,7 @@ impl From<InputEvent> for OutputEvent {
                     String::from_utf8(e.name().into_inner().to_vec()).expect("utf8");
                 OutputEvent::End(elem_name)
             }
-            Event::Text(t) => {
-                OutputEvent::Text(String::from_utf8(t.into_inner().to_vec()).expect("utf8"))
-            }
+            Event::Text(t) => OutputEvent::Text(unescaped_text(&t)),
             Event::CData(c) => {
                 OutputEvent::CData(String::from_utf8(c.into_inner().to_vec()).expect("utf8"))
             }
@@ -499,7 +509,7 @@ impl<'a> From<OutputEvent> for Event<'a> {
             OutputEvent::Empty(e) => Event::Empty(e.into_bytesstart()),
             OutputEvent::Start(e) => Event::Start(e.into_bytesstart()),
             OutputEvent::Comment(t) => Event::Comment(BytesText::from_escaped(t)),
-            OutputEvent::Text(t) => Event::Text(BytesText::from_escaped(t)),
+            OutputEvent::Text(t) => Event::Text(BytesText::new(&t).into_owned()),
             OutputEvent::CData(t) => Event::CData(BytesCData::new(t)),
             OutputEvent::End(name) => Event::End(BytesEnd::new(name)),
             OutputEvent::Other(e) => e,
